@@ -5,6 +5,8 @@
 //! fresh memfds (identities numbered 1.. in order of creation), then `handle_request()` is called once.
 //! observation per step: `r=<ok|err.<class>|blocked> c=<call|-> o=<hex written|-> n=<fds written>`; last item `L=<leaked ids|->`.
 use crate::rawsock::*;
+use crate::rec_fe::{gettid, pending_bytes, thread_sleeping, QUIET_ROUNDS, WATCHDOG};
+use std::sync::atomic::{AtomicI32, Ordering};
 use crate::rec::*;
 use crate::util::*;
 use std::os::unix::io::AsRawFd;
@@ -82,7 +84,11 @@ pub fn run(line: &str) -> String {
         // run handle_request on a helper thread with a watchdog
         let (tx, rx) = mpsc::channel();
         let h2 = handler.clone();
+        let h2b = handler.clone();
+        let tid = Arc::new(AtomicI32::new(0));
+        let tid2 = tid.clone();
         let t = std::thread::spawn(move || {
+            tid2.store(gettid(), Ordering::SeqCst);
             let mut g = h2.lock().unwrap();
             let r = g.as_mut().unwrap().handle_request();
             let _ = tx.send(match r {
@@ -100,7 +106,12 @@ pub fn run(line: &str) -> String {
                 loop {
                     let mut n: libc::c_int = 0;
                     unsafe { libc::ioctl(sfd, libc::FIONREAD, &mut n) };
-                    if n == 0 || t0.elapsed() > Duration::from_millis(300) {
+                    // consumed, or the server already returned / sleeps without reading (what is left stays in the socket)
+                    if n == 0 || t0.elapsed() > Duration::from_secs(5) {
+                        break;
+                    }
+                    if h2b.try_lock().is_ok() && t0.elapsed() > Duration::from_millis(2) {
+                        // handle_request is over (the handler lock is free again): nobody is going to read the rest
                         break;
                     }
                     std::thread::sleep(Duration::from_micros(50));
@@ -115,12 +126,44 @@ pub fn run(line: &str) -> String {
         for fd in fds.iter().chain(body_fds.iter()) {
             close(*fd);
         }
-        let r = match rx.recv_timeout(Duration::from_millis(400)) {
+        // `blocked` = the server thread sleeps with nothing queued on its socket (observed, not timed)
+        let sfd2 = srv_sock.as_raw_fd();
+        let waited = {
+            let t0 = std::time::Instant::now();
+            let mut quiet = 0u32;
+            loop {
+                match rx.recv_timeout(Duration::from_millis(2)) {
+                    Ok(s) => break Ok(s),
+                    Err(mpsc::RecvTimeoutError::Disconnected) => break Err(true),
+                    Err(mpsc::RecvTimeoutError::Timeout) => {}
+                }
+                if thread_sleeping(tid.load(Ordering::SeqCst)) && pending_bytes(sfd2) == 0 {
+                    quiet += 1;
+                    if quiet >= QUIET_ROUNDS {
+                        break rx.try_recv().map_err(|_| false);
+                    }
+                } else {
+                    quiet = 0;
+                }
+                if t0.elapsed() > WATCHDOG {
+                    break Err(false);
+                }
+            }
+        };
+        let r = match waited {
             Ok(s) => {
                 let _ = t.join();
                 s
             }
-            Err(_) => {
+            Err(true) => {
+                // the server thread died without a result: it panicked inside handle_request
+                let msg = match t.join() {
+                    Err(e) => e.downcast_ref::<String>().cloned().or_else(|| e.downcast_ref::<&str>().map(|s| s.to_string())).unwrap_or_default(),
+                    Ok(()) => String::new(),
+                };
+                panic!("handle_request panicked: {}", msg);
+            }
+            Err(false) => {
                 // blocked: unblock by shutting the server socket down, then give up on this scenario
                 let _ = srv_sock.shutdown(std::net::Shutdown::Both);
                 let _ = t.join();
